@@ -187,6 +187,11 @@ type Raft struct {
 	// Notifies snapshot loop that a snapshot should be taken.
 	snapshotCond *sync.Cond
 
+	// True while the state machine is applying a replicated operation, being
+	// snapshotted or being restored with the lock released. These never overlap:
+	// whoever finds it set waits on applyCond.
+	fsmBusy bool
+
 	// The current state of this raft node: leader, followers, or shutdown.
 	state State
 
@@ -1508,6 +1513,15 @@ func (r *Raft) InstallSnapshot(
 		return nil
 	}
 
+	// Wait for an operation that is being applied (or a snapshot that is being taken):
+	// it must not reach the state machine after the snapshot has replaced its state.
+	for r.fsmBusy && r.state != Shutdown {
+		r.applyCond.Wait()
+	}
+	if r.state == Shutdown || r.lastIncludedIndex != request.LastIncludedIndex {
+		return nil
+	}
+
 	snapshot, err := r.snapshotStorage.SnapshotFile()
 	if err != nil {
 		r.logger.Fatalf("failed to get snapshot file: error = %v", err)
@@ -1515,6 +1529,7 @@ func (r *Raft) InstallSnapshot(
 
 	// Restore the state machine with the snapshot.
 	// This could take a while so it's probably best that the lock is released.
+	r.fsmBusy = true
 	r.mu.Unlock()
 	r.logger.Warnf(
 		"restoring state machine with snapshot: lastIndex = %d, lastTerm = %d",
@@ -1528,6 +1543,8 @@ func (r *Raft) InstallSnapshot(
 		r.logger.Fatalf("failed to close snapshot file: error = %v", err)
 	}
 	r.mu.Lock()
+	r.fsmBusy = false
+	r.applyCond.Broadcast()
 
 	if r.state == Shutdown {
 		return nil
@@ -1577,6 +1594,15 @@ func (r *Raft) snapshotLoop() {
 // only be taken if there is new state since the previous snapshot and there
 // is not a pending configuration change.
 func (r *Raft) takeSnapshot() {
+	// Wait for an operation that is being applied: the snapshot must contain
+	// exactly the operations up to the index it is labelled with.
+	for r.fsmBusy && r.state != Shutdown {
+		r.applyCond.Wait()
+	}
+	if r.state == Shutdown {
+		return
+	}
+
 	// There is nothing new to snapshot.
 	if r.lastApplied <= r.lastIncludedIndex {
 		return
@@ -1611,6 +1637,8 @@ func (r *Raft) takeSnapshot() {
 
 	// Take a snapshot of the state machine.
 	// It's best that the lock is not held here since this might take a while.
+	// No operation is applied in the meantime.
+	r.fsmBusy = true
 	r.mu.Unlock()
 	if err := r.fsm.Snapshot(snapshot); err != nil {
 		r.logger.Fatalf("failed to take snapshot of state machine: error = %v", err)
@@ -1619,6 +1647,8 @@ func (r *Raft) takeSnapshot() {
 		r.logger.Fatalf("failed to close snapshot file: error = %v", err)
 	}
 	r.mu.Lock()
+	r.fsmBusy = false
+	r.applyCond.Broadcast()
 
 	// It's possible a snapshot was installed and the log was compacted while the lock was released.
 	if lastAppliedEntry.Index <= r.lastIncludedIndex {
@@ -1831,6 +1861,12 @@ func (r *Raft) applyLoop() {
 				respond(r.configurationResponseCh, *r.configuration, nil)
 				r.configurationResponseCh = nil
 			case OperationEntry:
+				// The state machine is being snapshotted or restored: wait, then look at the log again.
+				if r.fsmBusy {
+					r.applyCond.Wait()
+					continue
+				}
+
 				responseCh := r.operationManager.pendingReplicated[entry.Index]
 				delete(r.operationManager.pendingReplicated, entry.Index)
 
@@ -1842,6 +1878,7 @@ func (r *Raft) applyLoop() {
 				}
 				lastApplied := r.lastApplied
 
+				r.fsmBusy = true
 				r.mu.Unlock()
 				response := OperationResponse{
 					Operation:           operation,
@@ -1855,6 +1892,8 @@ func (r *Raft) applyLoop() {
 					operation.OperationType.String(),
 				)
 				r.mu.Lock()
+				r.fsmBusy = false
+				r.applyCond.Broadcast()
 
 				// It's possible a snapshot was installed while the lock was released.
 				// It's not safe to increment the last applied index if it has changed.
